@@ -1,8 +1,30 @@
-(* C03 -- no input crashes or wedges the interpreter (statements grow with the model). *)
-From BL Require Import Base.Prelude Lang.Token Lang.Lex.
+(* C03 -- no input can crash or wedge the interpreter.
+   Statements only; proofs in Proofs/LexTotal.v.
+   Proved for every source text, with no bound on its length: the scanner accepts it -- it returns tokens, never a BASIC
+   error, never the model's Panic, and never runs out of the fuel that stands for "loops for ever" (Hang).  The loop that
+   hung in the unrepaired crate (`PRINT 1EE`, commit 8079876) is number_loop; its progress lemma is the heart of the proof.
+   NOT proved here: the same for the parser, code generator and VM.  Their Panic/Hang-freedom is checked only by the
+   differential runs (a model that returned Panic where the crate does not would show as a disagreement). *)
+From BL Require Import Base.Prelude Lang.Token Mach.Func Lang.Lex Proofs.LexTotal.
+From Coq Require Import String.
+Local Open Scope N_scope.
 
-(* placeholder obligation until Proofs/LexTotal.v is in place: post-passes are total functions *)
-Theorem C03_postpasses_total : forall ts, exists ts',
-  pp_separate_words (pp_collapse_doubles (pp_collapse_triples (pp_trim_end ts))) = ts'.
-Proof. intros ts. eexists. reflexivity. Qed.
-Print Assumptions C03_postpasses_total.
+Theorem C03_lex_total : forall src, exists num toks, lex src = Ok (num, toks).
+Proof. exact lex_total. Qed.
+Print Assumptions C03_lex_total.
+
+(* the token loop needs at most one round per character *)
+Theorem C03_lex_loop_fuel : forall fuel cs acc, (List.length cs < fuel)%nat -> exists ts, lex_loop fuel cs acc = Ok ts.
+Proof. exact lex_loop_total. Qed.
+Print Assumptions C03_lex_loop_fuel.
+
+(* number(): always a token and never a longer remainder; a strictly shorter one unless the first character is a dangling exponent letter *)
+Theorem C03_number_progress : forall cs s d dec e,
+  exists t rest, number_loop cs s d dec e = Ok (t, rest) /\ (List.length rest <= List.length cs)%nat
+    /\ (forall c r, cs = c :: r -> c <> 69 -> c <> 101 -> c <> 68 -> c <> 100 -> (List.length rest < List.length cs)%nat).
+Proof. exact number_loop_total. Qed.
+Print Assumptions C03_number_progress.
+
+(* non-vacuity / regression: the inputs that hung the unrepaired scanner *)
+Example C03_hang_inputs : (exists r, lex (s2l "PRINT 1EE"%string) = Ok r) /\ (exists r, lex (s2l "1E."%string) = Ok r) /\ (exists r, lex (s2l "A=1E!"%string) = Ok r).
+Proof. repeat split; eexists; vm_compute; reflexivity. Qed.
